@@ -511,8 +511,9 @@ def rule_writer_first_element(rep: Report, repo: Repo, rule: str) -> None:
               "the document does not start with exactly the heading")
     doc_cls = roles.documenter_class(repo)
     dinit = repo.cls(doc_cls).methods["__init__"]
+    title_param = func_params(dinit)[2] if len(func_params(dinit)) > 2 else "title"      # (self, file, title, ...)
     ok = any(isinstance(n, (ast.Assign, ast.AnnAssign)) and norm(n.targets[0] if isinstance(n, ast.Assign) else n.target) == "self.writer"
-             and isinstance(n.value, ast.Call) and call_name(n.value) == "RSTWriter" and n.value.args and norm(n.value.args[0]) == "title"
+             and isinstance(n.value, ast.Call) and call_name(n.value) == "RSTWriter" and n.value.args and norm(n.value.args[0]) == title_param
              for n in walk_no_nested(dinit))
     rep.check(ok, rule, f"cminx.documenter:{doc_cls}.__init__", "self.writer = RSTWriter(title, ...)", "the page writer is not created from the title")
     # RSTWriter.to_text emits the document elements in list order, one per line block
